@@ -478,6 +478,17 @@ func F(a0 int) int {
 	return g*10 + a0
 }
 `},
+	{name: "package-variable-used-only-in-function-literal-called-in-place", fns: intFn, reset: "\tg = 5\n\tglog = 0", src: `
+var g = 5
+var glog = 0
+
+func F(a0 int) int {
+	func() {
+		glog = 18 - g
+	}()
+	return glog + a0
+}
+`},
 	{name: "slice-of-constant-string", fns: intFn, src: `
 const prefix = "abc"
 
